@@ -12,6 +12,19 @@ NOTE_COMMON = ('Trusted base: CPython, Hypothesis 6.168 as case generator, the h
 
 # id -> (design section, technique, level text, level note)
 CLAIMS = {
+    'C09': ('3/C09', 'schema-driven value assignments with read-back and re-parse oracles; bounded-exhaustive assignment sequences over all initial cost forms and payee/narration forms against record-of-optionals reference models',
+            'Exploration: every value property of every class is assigned in-domain values (incl. None) and read back live and after print + re-parse; the cost number/currency group and '
+            'payee/narration are driven through every assignment sequence up to length 2 (thorough 3 / 5) from every initial concrete form against an explicit reference model with the '
+            'documented rejections. Right level: the dependent groups are small state machines that can be enumerated.',
+            NOTE_COMMON),
+    'C14': ('3/C14', 'enumerated comment layouts (every adjacent line-kind pair x comment block shape) + random comment-dense ledgers and claim/unclaim programs; uniqueness invariant, idempotence / parse-vs-later / unclaim-claim metamorphic relations, and a line-based reference for the documented order',
+            'Exploration: ownership of every block comment is extracted from the tree and compared with a reference that works on the lines of the text (rules L, X, T, S; ambiguous layouts '
+            'accept anything), and uniqueness is re-checked after every attribution call. Right level: attribution depends only on the local line layout, which a sweep over line-kind pairs covers.',
+            NOTE_COMMON + ' Layouts where the documented rule has more than one reading are counted as undecided.'),
+    'C15': ('3/C15', 'signature-driven constructor argument generation (role table; all optional subsets per class) with nested construction; invariants + print/re-parse/digest + getter read-back oracles',
+            'Exploration: every from_value / from_children of every class is called with every subset of optional arguments and with random nested arguments; the result must be a well-formed '
+            'tree, print to accepted text and re-parse to the same content. Right level: constructor defects are per (class, argument subset), which is enumerated.',
+            NOTE_COMMON + ' A parameter without a role in the table is a harness error.'),
     'C12': ('3/C12', 'per-class value/lexeme generators over hazard alphabets + bounded-exhaustive enumeration (strings <= 3 over 12 symbols, date ranges, digit patterns); round-trip through from_value / parse_token and differential against a harness-side transcription of each terminal',
             'Exploration: for every value-bearing token class, values, lexemes, near-lexeme candidates and assignment sequences are checked for value <-> raw text <-> lexer agreement; '
             'small sub-domains are enumerated completely. Right level: the relation is per token and the failing regions (line/page separators, year < 1000, tiny decimals) are '
